@@ -280,6 +280,19 @@ theorem convert_base_result_digits (W B NB : Nat) (hB : 2 ≤ B) (hNB : 2 ≤ NB
     res.1.digits NB ≤ p + 1 :=
   convertBase_digits_le W B NB hB hNB hne m p hp r res h
 
+/-- the precision `with_base` hands on when neither base is a power of the other (as of fix fa3b7b8:
+    the exact `(B^p).ilog(NewB)`) is the documented maximum -/
+theorem with_base_precision_model (W B NewB p : Nat) (hB : 1 ≤ B) (hN : 2 ≤ NewB)
+    (h1 : ilogExact B NewB ≤ 1) (h2 : ilogExact NewB B ≤ 1) :
+    NewB ^ withBasePrecision W B NewB p ≤ B ^ p ∧ B ^ p < NewB ^ (withBasePrecision W B NewB p + 1) := by
+  have e : withBasePrecision W B NewB p = withBasePrecisionSpec B NewB p := by
+    unfold withBasePrecision
+    have a : ¬ ilogExact B NewB > 1 := by omega
+    have b : ¬ ilogExact NewB B > 1 := by omega
+    simp only [a, b, if_false]
+  rw [e]
+  exact withBasePrecisionSpec_max B NewB p hB hN
+
 -- non-vacuity
 example : ilogExact 16 2 = 4 ∧ ilogExact 8 2 = 3 ∧ ilogExact 10 2 = 0 ∧ ilogExact 36 6 = 2 := by decide
 example : (2 : Nat) ≤ 10 ∧ (1 : Nat) ≤ 53 := by decide
@@ -323,5 +336,6 @@ example := convert_base_exact_paths_contract 64 2 16 (by decide) (by decide) .ze
   (convert_base_pow_up_branch 64 2 16 .zero 10 ⟨5, -3⟩ (by decide) (by decide))
 example := convert_base_result_digits 64 2 16 (by decide) (by decide) (by decide) .zero 10 (by decide) ⟨5, -3⟩ _
   (convert_base_pow_up_branch 64 2 16 .zero 10 ⟨5, -3⟩ (by decide) (by decide))
+example := with_base_precision_model 64 10 2 17 (by decide) (by decide) (by decide) (by decide)
 
 end Dashu.Props.C08
